@@ -56,6 +56,7 @@ struct OpInfo
   long result = 0;  // observed
   std::uint64_t inv = 0, ret = 0;
   bool executed = false;
+  bool failed = false; // interrupted by an injected allocation failure
 };
 
 struct FiberState
@@ -74,6 +75,7 @@ struct LOp
   std::vector<unsigned> path;
   int arg;
   long result;
+  bool optional = false; // an interrupted set: it may have taken effect (atomically) or not at all
 };
 
 struct Lin
@@ -119,6 +121,8 @@ struct Lin
         n.set(o.path, o.arg);
         if (search(done | (std::uint64_t{1} << k), n))
           return true;
+        if (o.optional && search(done | (std::uint64_t{1} << k), m))
+          return true;
       }
       else if (read_ok(o, m))
       {
@@ -157,6 +161,38 @@ struct World
 
   // one operation of one fiber (runs inside the fiber, or on main for the prelude)
   void exec(FiberState &f, unsigned fiber, unsigned k)
+  {
+    sim::Op const &op = f.ops[k];
+    OpInfo &info = f.info[k];
+    long fault_k = 0;
+    {
+      std::string const fa = op.gets("fault");
+      if (fa.compare(0, 6, "alloc:") == 0)
+        fault_k = std::strtol(fa.c_str() + 6, nullptr, 10);
+    }
+    if (fault_k <= 0 || fiber >= MAX_FIBERS)
+    {
+      exec_op(f, fiber, k);
+      return;
+    }
+    try
+    {
+      sim::sched::arm_alloc_fault(static_cast<int>(fiber), fault_k);
+      exec_op(f, fiber, k);
+      sim::sched::disarm_alloc_fault();
+    }
+    catch (std::bad_alloc const &)
+    {
+      sim::sched::disarm_alloc_fault();
+      // the operation was interrupted: close its window in the history
+      info.failed = true;
+      if (info.inv != 0 && info.ret == 0)
+        info.ret = sim::sched::record(fiber, k, true, -1);
+      info.executed = info.kind == Kind::set && info.inv != 0;
+    }
+  }
+
+  void exec_op(FiberState &f, unsigned fiber, unsigned k)
   {
     sim::Op const &op = f.ops[k];
     OpInfo &info = f.info[k];
@@ -214,9 +250,10 @@ struct World
         info.inv = sim::sched::record(fiber, k, false, 0);
         o = std::make_unique<fcppt::log::object>(*f.objs[pi], params);
       }
+      sim::sched::disarm_alloc_fault(); // harness bookkeeping below is never a fault site
       info.ret = sim::sched::record(fiber, k, true, 0);
-      f.objs.push_back(std::move(o));
       f.obj_paths.push_back(info.path);
+      f.objs.push_back(std::move(o));
     }
     else if (n == "level" || n == "enabled")
     {
@@ -299,6 +336,9 @@ struct World
     ctx.interleaving = res.interleaving_hash;
     if (res.deadlock || res.step_bound)
       sim::detail::fatal_violation(res.deadlock ? "deadlock" : "step-bound", res.detail);
+    if (res.locks_held_at_end != 0)
+      sim::detail::fatal_violation("lock-not-released", std::to_string(res.locks_held_at_end) + " mutex(es) still locked after every thread had finished (a lock was not released on an exception path)");
+    ctx.probe("alloc_faults_fired", res.alloc_faults_fired);
     ctx.probe("context_switches", res.switches);
     ctx.probe("parked_on_mutex", res.parked);
     ctx.probe("preempted_inside_critical_section", res.preempt_in_cs);
@@ -324,7 +364,7 @@ struct World
       {
         if (!i.executed)
           continue;
-        LOp o{i.inv, i.ret, i.kind, i.path, i.arg, i.result};
+        LOp o{i.inv, i.ret, i.kind, i.path, i.arg, i.result, i.failed};
         if (i.kind == Kind::set || i.kind == Kind::get)
           protected_ops.push_back(o);
         else if (i.kind == Kind::level || i.kind == Kind::enabled)
@@ -414,6 +454,8 @@ void warmup()
   p.ops.push_back(sim::Op("get").set("t", 1).set("loc", 7));
   p.ops.push_back(sim::Op("set").set("t", 1).set("loc", 7).set("lvl", 3));
   p.ops.push_back(sim::Op("level").set("t", 0).set("o", 0));
+  p.property = prop::id;
+  sim::detail::announce_warmup(p);
   sim::Ctx ctx;
   try
   {
@@ -483,6 +525,9 @@ void generate(sim::Rng &rng, sim::Plan &p, bool)
       op.set("l", static_cast<long>(rng.below(6)));
     return op;
   };
+  bool const faulty = rng.chance(1, 5);
+  if (faulty)
+    p.cfg.set("faulty", 1);
   unsigned const prelude = static_cast<unsigned>(rng.below(4));
   for (unsigned k = 0; k < prelude; ++k)
     p.ops.push_back(make_op(PRELUDE));
@@ -490,7 +535,12 @@ void generate(sim::Rng &rng, sim::Plan &p, bool)
   {
     unsigned const len = static_cast<unsigned>(rng.range(2, 6));
     for (unsigned k = 0; k < len; ++k)
-      p.ops.push_back(make_op(t));
+    {
+      sim::Op op = make_op(t);
+      if (faulty && rng.chance(1, 4) && op.name != "level" && op.name != "enabled")
+        op.sets("fault", "alloc:" + std::to_string(rng.range(1, 8)));
+      p.ops.push_back(op);
+    }
   }
 }
 
